@@ -52,7 +52,7 @@ func (d *Delay) UnmarshalXML(dec *xml.Decoder, start xml.StartElement) error {
 	for _, attr := range start.Attr {
 		switch attr.Name.Local {
 		case "from":
-			d.From, err = jid.Parse(attr.Value)
+			err = d.From.UnmarshalXMLAttr(attr)
 			if err != nil {
 				return err
 			}
